@@ -1,7 +1,70 @@
-(* family 2: stub, to be filled *)
+(* family 2: unsigned byte fields (spacepackets/util.py), property C20 *)
 From Coq Require Import ZArith List Bool.
-From SP Require Import Base.Result Base.Bytes Run.Marshal.
+From SP Require Import Base.Result Base.Bytes Run.Marshal Model.Util Spec.UtilSpec.
 Import ListNotations.
 Open Scope Z_scope.
 
-Definition run_ubf (op : Z) (a : args) : args := [[1; 97]].
+Definition of_opt_list (o : option (list Z)) : list Z :=
+  match o with None => [0] | Some l => 1 :: l end.
+
+(* everything observable of a field: value, byte_len, int(), len() / as_bytes / hex digits *)
+Definition ubf_obs (f : ubf) : args :=
+  [[ubf_val f; ubf_len f; ubf_int f; ubf_pylen f]; ubf_as_bytes f; of_opt_list (ubf_hex_str f)].
+
+Definition ubf_of (l : list Z) : res ubf := ubf_new (nth 0 l 0) (nth 1 l 0).
+
+(* setter history: each op is [0; int] (value = int) or 1 :: octets (value = bytes);
+   a refused assignment leaves the object unchanged; output after every op *)
+Definition ubf_op_of (o : list Z) : option ubf_op :=
+  match o with
+  | 0 :: v :: _ => Some (SetInt v)
+  | 1 :: b => Some (SetBytes b)
+  | _ => None
+  end.
+Fixpoint ubf_history (f : ubf) (ops : list (list Z)) : args :=
+  match ops with
+  | [] => []
+  | o :: rest =>
+      match ubf_op_of o with
+      | None => [[1; 97]]
+      | Some op =>
+          match ubf_step f op with
+          | Ok f' => ([0] :: ubf_obs f') ++ ubf_history (ubf_apply f op) rest
+          | Err e => [1; err_code e] :: ubf_history (ubf_apply f op) rest
+          end
+      end
+  end.
+
+Definition run_ubf (op : Z) (a : args) : args :=
+  match op with
+  | 200 => ret ubf_obs (ubf_of (lst 0 a))
+  | 201 => ret ubf_obs (do f <- ubf_of (lst 0 a); ubf_set_int f (int 1 0 a))
+  | 202 => ret ubf_obs (do f <- ubf_of (lst 0 a); ubf_set_bytes f (lst 1 a))
+  | 203 => ret ubf_obs (ubf_from_bytes (lst 0 a))
+  | 204 => ret ubf_obs (gen_from_int (int 0 0 a) (int 0 1 a))
+  | 205 => ret ubf_obs (gen_from_bytes (int 0 0 a) (lst 1 a))
+  | 206 => ret ubf_obs (u8_from_bytes (lst 0 a))
+  | 207 => ret ubf_obs (u16_from_bytes (lst 0 a))
+  | 208 => ret ubf_obs (u32_from_bytes (lst 0 a))
+  | 209 => ret ubf_obs (u64_from_bytes (lst 0 a))
+  (* f == g, and "hash(f), hash(g) are hash((value, byte_len))": the model's hash key is
+     that pair by definition, so the second component is 1 *)
+  | 210 => ret (fun b => [[b2z b; 1]])
+             (do f <- ubf_of (lst 0 a); do g <- ubf_of (lst 1 a); Ok (ubf_eq f g))
+  | 211 => ret (fun b => [[b2z b]]) (do f <- ubf_of (lst 0 a); Ok (ubf_eq_bytes f (lst 1 a)))
+  | 212 => ret (fun b => [b]) (to_unsigned (int 0 0 a) (int 0 1 a))
+  | 213 => ret (fun b => [b]) (to_signed (int 0 0 a) (int 0 1 a))
+  | 214 => ret ubf_obs (empty_new (int 0 0 a))
+  | 215 => match ubf_of (lst 0 a) with
+           | Ok f => ([0] :: ubf_obs f) ++ ubf_history f (tl a)
+           | Err e => ret_err e
+           end
+  (* from_bytes(f.as_bytes) == f for a constructed field *)
+  | 216 => ret (fun b => [[b2z b]])
+             (do f <- ubf_of (lst 0 a); do g <- ubf_from_bytes (ubf_as_bytes f); Ok (ubf_eq g f))
+  (* Spec side *)
+  | 250 => [[0]; ubf_layout (int 0 0 a) (int 0 1 a)]
+  | 251 => [[0]; hex_of_bytes (lst 0 a)]
+  | 252 => [[0]; twos_complement (Z.to_nat (int 0 0 a)) (int 0 1 a)]
+  | _ => [[1; 97]]
+  end.
